@@ -165,7 +165,7 @@ func init() {
 		explanation: "Decides: Q1 — FIFO discipline of the queue API: the leaky-bucket pacer's list is only used through PushBack/Front/Remove(Front())/Len, the pacing interceptor's slice queue is appended at the tail, read at element 0 and cut [1:]; Q2 — in the consumer loop at most one downstream Write per dequeued packet and exactly one unless the stream has no writer (comma-ok lookup failed), and a pacer's Write returns a nil error only on paths that enqueued exactly once; " +
 			"Q3 — in the token-bucket loop every Write is dominated by a test of the limiter's budget and by a charge (AllowN) of the limiter; B — what is queued is a copy (header Clone, payload copy); F2 — the copy into the pooled buffer cannot truncate; C1 — queue and writer table under their mutexes; D2 — the consumer loops stop on Close.",
 		notDecided:  "the cumulative-bits inequality as a numeric bound; ordering across the lock hand-over in Run beyond the single-consumer structure; that NoOpPacer holds its lock across the downstream write (noted)",
-		sels:        []sel{s("Q1"), s("Q2"), s("Q3"), s("B", `gcc\.\(\*(LeakyBucket|NoOp)Pacer\)|pacing\.`), s("F2", `gcc\.`), s("C1", `gcc\.(LeakyBucket|NoOp)Pacer\.|pacing\.`), s("D2", `gcc\.\(\*LeakyBucketPacer\)|pacing\.`)},
+		sels:        []sel{s("Q1"), s("Q2"), s("Q3"), s("Q4"), s("B", `gcc\.\(\*(LeakyBucket|NoOp)Pacer\)|pacing\.`), s("F2", `gcc\.`), s("C1", `gcc\.(LeakyBucket|NoOp)Pacer\.|pacing\.`), s("D2", `gcc\.\(\*LeakyBucketPacer\)|pacing\.`)},
 		assumptions: std,
 	}
 	props["C19"] = &propDef{
